@@ -19,13 +19,13 @@ const pkgProportion = "pkg/scheduler/plugins/proportion"
 const pkgResShare = "pkg/scheduler/plugins/proportion/resource_share"
 
 type pairSpec struct {
-	name     string
-	f, g     *ssa.Function
-	target   func(*Term) bool
-	lab      armLabeler
-	inline   int
-	ignore   func(Effect) string // non-empty reason ⇒ effect not part of the pairing
-	floor    int
+	name   string
+	f, g   *ssa.Function
+	target func(*Term) bool
+	lab    armLabeler
+	inline int
+	ignore func(Effect) string // non-empty reason ⇒ effect not part of the pairing
+	floor  int
 }
 
 func fieldNamed(names ...string) func(*Term) bool {
@@ -324,13 +324,13 @@ func runC14(c *Ctx) {
 		"pkg/scheduler/api/podgroup_info/subgroup_info.NewPodSet":                ctor,
 	})
 	checkWriters(c, "O5", "ResourceShare.{Allocated,AllocatedNotPreemptible,Request}", p.fieldVars(pkgResShare, "ResourceShare", "Allocated", "AllocatedNotPreemptible", "Request"), 3, map[string]string{
-		"(*pkg/scheduler/plugins/proportion.proportionPlugin).allocateHandlerFn":                       "accounting: allocate handler",
-		"(*pkg/scheduler/plugins/proportion.proportionPlugin).deallocateHandlerFn":                     "accounting: deallocate handler",
+		"(*pkg/scheduler/plugins/proportion.proportionPlugin).allocateHandlerFn":                        "accounting: allocate handler",
+		"(*pkg/scheduler/plugins/proportion.proportionPlugin).deallocateHandlerFn":                      "accounting: deallocate handler",
 		"(*pkg/scheduler/plugins/proportion.proportionPlugin).updateQueuesResourceUsageForAllocatedJob": "snapshot-time accumulation over allocated jobs",
 		"(*pkg/scheduler/plugins/proportion.proportionPlugin).updateQueuesResourceUsageForPendingJob":   "snapshot-time accumulation over pending jobs",
-		"(*pkg/scheduler/plugins/proportion/resource_share.ResourceShare).Clone":                       ctor,
-		"(*pkg/scheduler/plugins/proportion/resource_share.ResourceShareOverrides).ResourceShare":      ctor,
-		"pkg/scheduler/plugins/proportion/queue_order.calculateDominantResourceShareWithJob":           "what-if inside one comparison: saves Allocated, adjusts, restores the saved value before returning (checked below)",
+		"(*pkg/scheduler/plugins/proportion/resource_share.ResourceShare).Clone":                        ctor,
+		"(*pkg/scheduler/plugins/proportion/resource_share.ResourceShareOverrides).ResourceShare":       ctor,
+		"pkg/scheduler/plugins/proportion/queue_order.calculateDominantResourceShareWithJob":            "what-if inside one comparison: saves Allocated, adjusts, restores the saved value before returning (checked below)",
 	})
 	// the what-if writer restores what it changed
 	if fn := p.Func(pkgProportion+"/queue_order", "", "calculateDominantResourceShareWithJob"); fn != nil {
@@ -584,7 +584,9 @@ func runC14AddTaskIndex(c *Ctx) {
 		nd++
 		fs := c.Fx.FactsAt(in)
 		_, allow := hasFact(fs, func(ft Fact) bool { return ft.Pol && ft.T.Op == "param" && rootParam(ft.T) == 2 })
-		_, shared := hasFact(fs, func(ft Fact) bool { return ft.Pol && ft.T.Op == "call" && strings.HasSuffix(ft.T.Name, "IsSharedGPUAllocation") })
+		_, shared := hasFact(fs, func(ft Fact) bool {
+			return ft.Pol && ft.T.Op == "call" && strings.HasSuffix(ft.T.Name, "IsSharedGPUAllocation")
+		})
 		c.Check(fs.Bottom || (allow && shared), "O13", "DOM", funcKey(f)+": an indexed copy is replaced only for the requested move of a shared-GPU pod", instrPos(in), "allowTaskToExistOnDifferentGPU ∧ IsSharedGPUAllocation()",
 			"the copy a node holds of a pod can be dropped from the index without the caller asking for a move, or for a pod that is not a shared-GPU allocation (facts: "+factKeys(fs)+"): its resources stay charged and are charged again — one pod, double Used / shared-GPU memory, which no undo repairs")
 	}
